@@ -427,6 +427,14 @@ def site_expressions():
         exprs = [node.value for node in ast.walk(tree) if isinstance(node, ast.Assign) and len(node.targets) == 1
                  and ast.unparse(node.targets[0]) == var and any(isinstance(x, ast.Name) and x.id == 'rate_limit' for x in ast.walk(node.value))]
         if len(exprs) != 1:
+            # the variable may have been renamed / the expression moved into a helper: use the expression the extractor resolved for
+            # this site (note `sizelit.piece_exprs`, the value that really reaches the backend call under `rate_limit is not None`)
+            try:
+                note = json.loads(json.load(open(WORK / 'extract.json'))['notes'].get('sizelit.piece_exprs', '{}'))
+                exprs = [ast.parse(note[fn], mode='eval').body] if fn in note else []
+            except Exception:  # noqa: BLE001
+                exprs = []
+        if len(exprs) != 1:
             out[fn] = None
             continue
         code = compile(ast.Expression(exprs[0]), f'<{fn}>', 'eval')
